@@ -33,8 +33,9 @@ var selected = []struct {
 }{
 	{"inclusion", []string{"RoundUpByMultipleOf", "RoundUpPowerOfTwo", "RoundDownPowerOfTwo", "SubTreeWidth", "getMin", "NextShareIndex"}},
 	{"share", []string{"CompactSharesNeeded", "SparseSharesNeeded", "AvailableBytesFromCompactShares", "AvailableBytesFromSparseShares",
-		"CompactShareCounter.Add", "CompactShareCounter.Revert", "CompactShareCounter.Size", "CompactShareCounter.Remainder"}},
-	{".", []string{"IsPowerOfTwo", "RoundUpPowerOfTwo"}},
+		"CompactShareCounter.Add", "CompactShareCounter.Revert", "CompactShareCounter.Size", "CompactShareCounter.Remainder",
+		"NewInfoByte", "ParseInfoByte", "InfoByte.Version", "InfoByte.IsSequenceStart", "rawTxSize", "Range.Add", "Range.IsEmpty"}},
+	{".", []string{"IsPowerOfTwo", "RoundUpPowerOfTwo", "Builder.canFit", "Builder.CurrentSize", "Builder.SubtreeRootThreshold", "Element.maxShareOffset"}},
 }
 
 type unsupported struct{ msg string }
@@ -45,7 +46,8 @@ type tr struct {
 	fset  *token.FileSet
 	info  *types.Info
 	pkg   *types.Package
-	recv  *types.Var // receiver of the method being translated (nil for functions)
+	recv  *types.Var      // receiver of the method being translated (nil for functions)
+	rflds map[string]bool // the receiver's modelled (integer) fields
 	names map[types.Object]string
 	used  map[string]int
 }
@@ -77,11 +79,39 @@ func ityOf(t types.Type) string {
 	return ""
 }
 
+func isIntLike(t types.Type) (ok bool) {
+	defer func() {
+		if r := recover(); r != nil {
+			if _, is := r.(unsupported); is {
+				ok = false
+				return
+			}
+			panic(r)
+		}
+	}()
+	k := ityOf(t)
+	return k != "IErr"
+}
+
 func zlit(s string) string {
 	if strings.HasPrefix(s, "-") {
 		return "(" + s + ")"
 	}
 	return s
+}
+
+// localOnly refuses package-level variables (their value is not part of the function's arguments) and
+// the blank identifier as a value
+func (t *tr) localOnly(v *types.Var) {
+	if v.Name() == "_" {
+		fail("the blank identifier used as a variable")
+	}
+	if v.IsField() {
+		fail("field %s outside a receiver selector", v.Name())
+	}
+	if v.Pkg() != nil && v.Parent() == v.Pkg().Scope() {
+		fail("package-level variable %s", v.Name())
+	}
 }
 
 func (t *tr) nameOf(obj types.Object) string {
@@ -139,20 +169,25 @@ func (t *tr) expr(e ast.Expr) string {
 	case *ast.ParenExpr:
 		return t.expr(x.X)
 	case *ast.Ident:
-		if x.Name == "nil" {
-			return "(EConst 0)"
-		}
 		obj := t.info.Uses[x]
 		if obj == nil {
 			obj = t.info.Defs[x]
 		}
-		if _, ok := obj.(*types.Var); !ok {
+		if _, isNil := obj.(*types.Nil); isNil {
+			return "(EConst 0)"
+		}
+		v, ok := obj.(*types.Var)
+		if !ok {
 			fail("identifier %s is not a variable", x.Name)
 		}
+		t.localOnly(v)
 		ityOf(obj.Type())
 		return "(EVar " + q(t.nameOf(obj)) + ")"
 	case *ast.SelectorExpr:
 		if id, ok := x.X.(*ast.Ident); ok && t.recv != nil && t.info.Uses[id] == t.recv {
+			if !t.rflds[x.Sel.Name] {
+				fail("receiver field %s is not one of the modelled integer fields", x.Sel.Name)
+			}
 			ityOf(t.info.TypeOf(e))
 			return "(EVar " + q(id.Name+"."+x.Sel.Name) + ")"
 		}
@@ -175,7 +210,12 @@ func (t *tr) expr(e ast.Expr) string {
 		case token.LOR:
 			return "(EOrElse " + a + " " + b + ")"
 		case token.LSS, token.LEQ, token.GTR, token.GEQ, token.EQL, token.NEQ:
-			ityOf(t.info.TypeOf(x.X))
+			if ityOf(t.info.TypeOf(x.X)) == "IErr" || ityOf(t.info.TypeOf(x.Y)) == "IErr" {
+				// an error value is modelled as nil / non-nil only: comparing two errors is outside the fragment
+				if !t.info.Types[x.X].IsNil() && !t.info.Types[x.Y].IsNil() {
+					fail("comparison of two error values")
+				}
+			}
 			op := map[token.Token]string{token.LSS: "CLt", token.LEQ: "CLe", token.GTR: "CGt", token.GEQ: "CGe", token.EQL: "CEq", token.NEQ: "CNe"}[x.Op]
 			return "(ECmp " + op + " " + a + " " + b + ")"
 		}
@@ -238,8 +278,23 @@ func (t *tr) call(x *ast.CallExpr) (string, string, string) {
 	if !ok {
 		fail("callee %s is not a function", id.Name)
 	}
+	if fn.Type().(*types.Signature).Recv() != nil {
+		fail("method call %s", types.ExprString(x.Fun))
+	}
 	key := funcKey(fn)
 	if key == "fmt.Errorf" || key == "errors.New" {
+		for _, a := range x.Args {
+			if tv, ok := t.info.Types[a]; ok && tv.Value != nil {
+				continue
+			}
+			if id, ok := a.(*ast.Ident); ok {
+				if v, ok := t.info.Uses[id].(*types.Var); ok {
+					t.localOnly(v)
+					continue
+				}
+			}
+			fail("argument %s of %s could have an effect", types.ExprString(a), key)
+		}
 		return key, "I64", "[]"
 	}
 	targ := "I64"
@@ -280,13 +335,18 @@ func (t *tr) lhs(e ast.Expr) string {
 		if obj == nil {
 			obj = t.info.Uses[x]
 		}
-		if _, ok := obj.(*types.Var); !ok {
+		v, ok := obj.(*types.Var)
+		if !ok {
 			fail("assignment to %s", x.Name)
 		}
+		t.localOnly(v)
 		ityOf(obj.Type())
 		return t.nameOf(obj)
 	case *ast.SelectorExpr:
 		if id, ok := x.X.(*ast.Ident); ok && t.recv != nil && t.info.Uses[id] == t.recv {
+			if !t.rflds[x.Sel.Name] {
+				fail("receiver field %s is not one of the modelled integer fields", x.Sel.Name)
+			}
 			ityOf(t.info.TypeOf(e))
 			return id.Name + "." + x.Sel.Name
 		}
@@ -433,9 +493,31 @@ func (t *tr) stmt(s ast.Stmt, results *types.Tuple) string {
 				if results.At(i).Name() == "" {
 					fail("bare return with unnamed results")
 				}
+				if results.At(i).Name() == "_" {
+					es = append(es, "(EConst 0)") // a blank result is never assigned: its zero value
+					continue
+				}
 				es = append(es, "(EVar "+q(t.nameOf(results.At(i)))+")")
 			}
 			return "(SReturn [" + strings.Join(es, "; ") + "])"
+		}
+		if len(x.Results) == 1 && results.Len() > 1 {
+			// return f(args) forwarding all results of a call
+			call, ok := x.Results[0].(*ast.CallExpr)
+			if !ok {
+				fail("return of a multi-value expression")
+			}
+			f, targ, args := t.call(call)
+			if f == "fmt.Errorf" || f == "errors.New" {
+				fail("return of a multi-value expression")
+			}
+			var tmps, evs []string
+			for i := 0; i < results.Len(); i++ {
+				ityOf(results.At(i).Type())
+				tmps = append(tmps, q(fmt.Sprintf("ret#%d", i)))
+				evs = append(evs, "(EVar "+q(fmt.Sprintf("ret#%d", i))+")")
+			}
+			return "(SSeq (SCall [" + strings.Join(tmps, "; ") + "] " + q(f) + " " + targ + " " + args + ")\n   (SReturn [" + strings.Join(evs, "; ") + "]))"
 		}
 		if len(x.Results) != results.Len() {
 			fail("return of a multi-value call")
@@ -479,23 +561,37 @@ func translate(fset *token.FileSet, info *types.Info, pkg *types.Package, fd *as
 	t := &tr{fset: fset, info: info, pkg: pkg, names: map[types.Object]string{}, used: map[string]int{}}
 	var params, outs []string
 	if r := sig.Recv(); r != nil {
-		t.recv = r
 		rt := r.Type()
 		ptr := false
 		if p, ok := rt.(*types.Pointer); ok {
 			rt = p.Elem()
 			ptr = true
 		}
-		st, ok := rt.Underlying().(*types.Struct)
-		if !ok {
-			fail("receiver is not a struct")
-		}
-		for i := 0; i < st.NumFields(); i++ {
-			ityOf(st.Field(i).Type())
-			params = append(params, q(r.Name()+"."+st.Field(i).Name()))
-			if ptr {
-				outs = append(outs, q(r.Name()+"."+st.Field(i).Name()))
+		switch st := rt.Underlying().(type) {
+		case *types.Struct:
+			// the receiver's INTEGER fields become in (and, for a pointer receiver, out) variables named
+			// "recv.field"; a body that touches any other field is refused where it does so
+			t.recv = r
+			t.rflds = map[string]bool{}
+			for i := 0; i < st.NumFields(); i++ {
+				if !isIntLike(st.Field(i).Type()) || st.Field(i).Embedded() {
+					continue
+				}
+				t.rflds[st.Field(i).Name()] = true
+				params = append(params, q(r.Name()+"."+st.Field(i).Name()))
+				if ptr {
+					outs = append(outs, q(r.Name()+"."+st.Field(i).Name()))
+				}
 			}
+		case *types.Basic:
+			// a value receiver of a named integer type is an ordinary first parameter
+			if ptr {
+				fail("pointer receiver of a non-struct type")
+			}
+			ityOf(rt)
+			params = append(params, q(t.nameOf(r)))
+		default:
+			fail("receiver type %s", rt.String())
 		}
 	}
 	if sig.TypeParams() != nil && sig.TypeParams().Len() > 1 {
@@ -512,7 +608,7 @@ func translate(fset *token.FileSet, info *types.Info, pkg *types.Package, fd *as
 	for i := 0; i < sig.Results().Len(); i++ {
 		r := sig.Results().At(i)
 		ityOf(r.Type())
-		if r.Name() != "" {
+		if r.Name() != "" && r.Name() != "_" {
 			t.nameOf(r)
 		}
 	}
@@ -532,6 +628,19 @@ func main() {
 	}
 	var ems []emitted
 	var unsup []string
+	// GO2COQ_SELECT="dir=Name1,Name2;dir2=T.Method" replaces the built-in selection (used by the self-test)
+	if env := os.Getenv("GO2COQ_SELECT"); env != "" {
+		selected = nil
+		for _, part := range strings.Split(env, ";") {
+			kv := strings.SplitN(part, "=", 2)
+			if len(kv) == 2 {
+				selected = append(selected, struct {
+					dir   string
+					names []string
+				}{kv[0], strings.Split(kv[1], ",")})
+			}
+		}
+	}
 	for _, sel := range selected {
 		fset := token.NewFileSet()
 		pkgs, err := parser.ParseDir(fset, sel.dir, func(fi os.FileInfo) bool {
